@@ -8,6 +8,8 @@ VARIABLES l
 Init == l = 1
 Accept(e) == IF e.a \in {"reset", "pre", "wire"} THEN TRUE
              ELSE IF e.a = "end" THEN ~e.aborted /\ e.leaked = 0
+             \* no lost update: the statistics counters equal the number of completed writes / reads of that SSRC
+             ELSE IF e.a = "stats" THEN e.skipped \/ (e.n = e.nums[1] /\ e.len = e.nums[2])
              ELSE ~e.blocked /\ e.panic = ""
 Next == /\ l <= Len(Trace)
         /\ IF Accept(Trace[l]) THEN l' = l + 1
